@@ -2656,7 +2656,7 @@ class CaseExpr(ColExpr):
             self._ftype = Ftype.WINDOW
         else:
             raise FunctionTypeError(
-                "incompatible function types found in case statement: , ".join(val_ftypes),
+                "incompatible function types found in case statement: " + ", ".join(str(ft) for ft in val_ftypes),
                 source=self._fn_id,
             )
 
